@@ -1,10 +1,100 @@
 /-
-  Linearity of the parser's cost model (the development behind C15).  TO BE PROVED: every `sorry` below.
+  Linearity of the parser's cost model (the development behind C15).
+
+  * erasure: the drive loop run with two machines related by a projection of the state gives related
+    results (`driveLoop_erase`); `cMachine` projects onto `pMachine` by forgetting the counter;
+  * linearity: a potential argument.  The potential `phi` of a parser state is the number of values still
+    sitting on the collection stack plus the pending flush cost; every token pays at most 8 units per byte
+    it occupies on the wire (`cMachine_value_step`, `cMachine_delim_step`, `driveLoop_cost`).
 -/
 import IppModel.Model.Cost
 import IppModel.Lemmas.Framing
+import IppModel.Lemmas.Consume
 namespace Ipp
 open Gen
+
+/-! ### erasure: same reader, two machines related by a projection -/
+
+/-- map the state component of a loop result -/
+def Outcome.mapSt {σ1 σ2 ρ : Type} (π : σ1 → σ2) : Outcome (σ1 × ρ) → Outcome (σ2 × ρ)
+  | .ok (s, r) => .ok (π s, r)
+  | .err e => .err e
+  | .panic => .panic
+  | .outOfFuel => .outOfFuel
+
+/-- If `m2` on projected states does what `m1` does, projected, then so does the whole loop. -/
+theorem driveLoop_erase {ρ σ1 σ2 : Type} (rd : Reader ρ) (cfg : LoopCfg) (m1 : Machine σ1) (m2 : Machine σ2)
+    (π : σ1 → σ2)
+    (hd : ∀ s t, m2.delim (π s) t = (m1.delim s t).map (fun p => (π p.1, p.2)))
+    (hv : ∀ s t n b, m2.value (π s) t n b = (m1.value s t n b).map π)
+    (fuel : Nat) : ∀ (r : ρ) (s : σ1),
+      driveLoop rd cfg m2 fuel r (π s) = Outcome.mapSt π (driveLoop rd cfg m1 fuel r s) := by
+  induction fuel with
+  | zero => intro r s; rfl
+  | succ f ih =>
+    intro r s
+    simp only [driveLoop]
+    cases h0 : rdU8 rd r with
+    | err e => rfl
+    | panic => rfl
+    | outOfFuel => rfl
+    | ok p =>
+      obtain ⟨tag, r1⟩ := p
+      simp only []
+      by_cases hdl : cfg.delimLo ≤ tag.toNat ∧ tag.toNat ≤ cfg.delimHi
+      · simp only [if_pos hdl, hd]
+        cases h1 : m1.delim s tag with
+        | error e => rfl
+        | ok q =>
+          obtain ⟨s1, code⟩ := q
+          simp only [Except.map]
+          by_cases hc : code = cfg.endTag
+          · simp only [if_pos hc]; rfl
+          · simp only [if_neg hc]; exact ih r1 s1
+      · simp only [if_neg hdl]
+        by_cases hvl : cfg.valueLo ≤ tag.toNat ∧ tag.toNat ≤ cfg.valueHi
+        · simp only [if_pos hvl]
+          cases h1 : rdLV rd r1 with
+          | err e => rfl
+          | panic => rfl
+          | outOfFuel => rfl
+          | ok q =>
+            obtain ⟨name, r2⟩ := q
+            simp only []
+            cases h2 : rdLV rd r2 with
+            | err e => rfl
+            | panic => rfl
+            | outOfFuel => rfl
+            | ok q' =>
+              obtain ⟨body, r3⟩ := q'
+              simp only [hv]
+              cases h3 : m1.value s tag name body with
+              | err e => rfl
+              | panic => rfl
+              | outOfFuel => rfl
+              | ok s1 => simp only [Outcome.map, Outcome.bind]; exact ih r3 s1
+        · simp only [if_neg hvl]; rfl
+
+theorem cMachine_delim_erase (c : CState) (t : UInt8) :
+    pMachine.delim c.st t = (cMachine.delim c t).map (fun p => (p.1.st, p.2)) := by
+  simp only [pMachine, cMachine]
+  cases c.st.parseDelimiter t with
+  | error e => rfl
+  | ok q => rfl
+
+theorem cMachine_value_erase (c : CState) (t : UInt8) (n b : Bytes) :
+    pMachine.value c.st t n b = (cMachine.value c t n b).map CState.st := by
+  simp only [pMachine, cMachine]
+  cases c.st.parseValue t (lossy n) b with
+  | ok s => rfl
+  | err e => rfl
+  | panic => rfl
+  | outOfFuel => rfl
+
+/-- the loop of the cost model, counter forgotten, is the loop of the parser -/
+theorem driveLoop_cMachine_erase {ρ : Type} (rd : Reader ρ) (cfg : LoopCfg) (fuel : Nat) (r : ρ) (c : CState) :
+    driveLoop rd cfg pMachine fuel r c.st = Outcome.mapSt CState.st (driveLoop rd cfg cMachine fuel r c) :=
+  driveLoop_erase rd cfg cMachine pMachine CState.st cMachine_delim_erase cMachine_value_erase fuel r c
 
 /-- forgetting the counter gives exactly the parser -/
 theorem parseCost_erase (bs : Bytes) :
@@ -13,11 +103,341 @@ theorem parseCost_erase (bs : Bytes) :
      | .err e => .err e
      | .panic => .panic
      | .outOfFuel => .outOfFuel) = parseFlat bs := by
-  sorry
+  unfold parseCost parseFlat parseWith
+  cases hh : rdHeader flatRd bs with
+  | err e => rfl
+  | panic => rfl
+  | outOfFuel => rfl
+  | ok p =>
+    obtain ⟨hd, r1⟩ := p
+    simp only []
+    have he := driveLoop_cMachine_erase flatRd syncLoop (bs.length + 1) r1 ⟨PState.init, 8⟩
+    simp only [] at he
+    rw [he]
+    cases driveLoop flatRd syncLoop cMachine (bs.length + 1) r1 ⟨PState.init, 8⟩ with
+    | err e => rfl
+    | panic => rfl
+    | outOfFuel => rfl
+    | ok q => obtain ⟨c, r2⟩ := q; rfl
+
+/-! ### lossy decoding at most triples the length -/
+
+theorem lossyF_length_le (fuel : Nat) (bs : Bytes) : (lossyF fuel bs).length ≤ 3 * bs.length := by
+  induction fuel generalizing bs with
+  | zero => simp [lossyF]
+  | succ n ih =>
+    cases bs with
+    | nil => simp [lossyF]
+    | cons b r =>
+      have hpos := classify_pos b r
+      have hle := classify_le (b :: r)
+      have hrec := ih ((b :: r).drop (classify (b :: r)).1)
+      simp only [List.length_drop, List.length_cons] at hrec hle
+      simp only [lossyF, List.length_cons]
+      split
+      · simp only [List.length_append, List.length_take]
+        omega
+      · simp only [List.length_append, fffd, List.length_cons, List.length_nil]
+        omega
+
+theorem lossy_length_le (bs : Bytes) : (lossy bs).length ≤ 3 * bs.length := lossyF_length_le _ _
+
+/-! ### the potential -/
+
+/-- number of values on the collection stack -/
+def stackSize (ctx : List (List Value)) : Nat := (ctx.map List.length).sum
+
+/-- potential of a parser state: values still on the stack, plus the pending flush cost -/
+def phi (s : PState) : Nat := stackSize s.context + flushCost s
+
+theorem phi_init : phi PState.init = 0 := rfl
+
+/-- the state after the name of a token has been handled -/
+def nameStep (s : PState) (name : Bytes) : PState :=
+  if name.isEmpty then s else { s.addLastAttribute with lastName := some name }
+
+/-- what `parse_value` does with the decoded value, after the name has been handled -/
+def valueTail (s1 : PState) (tag : UInt8) (v : Value) : Outcome PState :=
+  if tag = begBracket.u8 then
+    if isEmptyOther v then .ok { s1 with context := [] :: s1.context } else .err .invalidCollection
+  else if tag = endBracket.u8 then
+    if isEmptyOther v then
+      match s1.context with
+      | arr :: top :: rest => .ok { s1 with context := (top ++ [.coll (collect arr)]) :: rest }
+      | [_] => .ok { s1 with context := [] }
+      | [] => .ok s1
+    else .err .invalidCollection
+  else
+    match s1.context with
+    | top :: rest => .ok { s1 with context := (top ++ [v]) :: rest }
+    | [] => .ok s1
+
+def closeCost' (s1 : PState) (tag : UInt8) : Nat :=
+  if tag = endBracket.u8 then
+    match s1.context with
+    | arr :: _ => arr.length
+    | [] => 0
+  else 0
+
+theorem parseValue_eq (s : PState) (tag : UInt8) (name body : Bytes) :
+    s.parseValue tag name body =
+      (match decodeValue tag body with
+       | .err e => .err e
+       | .panic => .panic
+       | .outOfFuel => .outOfFuel
+       | .ok v => valueTail (nameStep s name) tag v) := rfl
+
+theorem closeCost_eq (s : PState) (tag : UInt8) (name : Bytes) :
+    closeCost s tag name = closeCost' (nameStep s name) tag := rfl
+
+/-- flushing the pending attribute: the pending term leaves the potential, the stack does not grow -/
+theorem phi_addLastAttribute (s : PState) : phi s.addLastAttribute + flushCost s ≤ phi s := by
+  obtain ⟨cg, ln, ctx, gs⟩ := s
+  cases ln with
+  | none => simp [PState.addLastAttribute, phi, flushCost]
+  | some n =>
+    cases ctx with
+    | nil => simp [PState.addLastAttribute, phi, flushCost, stackSize]
+    | cons vl rest =>
+      simp only [PState.addLastAttribute, phi, flushCost, stackSize, List.map_cons, List.sum_cons,
+        List.length_nil]
+      omega
+
+theorem flushCost_addLastAttribute (s : PState) : flushCost s.addLastAttribute = 0 := by
+  obtain ⟨cg, ln, ctx, gs⟩ := s
+  cases ln with
+  | none => rfl
+  | some n => cases ctx <;> rfl
+
+/-- handling the name: amortised cost at most `1 + 2 * name.length` (nothing for an empty name) -/
+theorem phi_nameStep (s : PState) (name : Bytes) :
+    (if name.isEmpty then 0 else flushCost s + name.length) + phi (nameStep s name)
+      ≤ phi s + (if name.isEmpty then 0 else 1 + 2 * name.length) := by
+  unfold nameStep
+  cases hn : name.isEmpty with
+  | true => simp
+  | false =>
+    have h1 := phi_addLastAttribute s
+    have h2 := flushCost_addLastAttribute s
+    simp only [phi, flushCost, Bool.false_eq_true, if_false] at h1 h2 ⊢
+    omega
+
+theorem begBracket_ne_endBracket : begBracket.u8 ≠ endBracket.u8 := by decide
+
+/-- pushing / closing: amortised cost at most 1 -/
+theorem phi_valueTail (s1 s' : PState) (tag : UInt8) (v : Value) (h : valueTail s1 tag v = .ok s') :
+    closeCost' s1 tag + phi s' ≤ phi s1 + 1 := by
+  obtain ⟨cg, ln, ctx, gs⟩ := s1
+  unfold valueTail at h
+  unfold closeCost'
+  by_cases hb : tag = begBracket.u8
+  · have he : ¬ tag = endBracket.u8 := by rw [hb]; exact begBracket_ne_endBracket
+    simp only [if_pos hb] at h
+    simp only [if_neg he]
+    split at h
+    · simp only [Outcome.ok.injEq] at h
+      subst h
+      simp [phi, flushCost, stackSize]
+    · cases h
+  · simp only [if_neg hb] at h
+    by_cases he : tag = endBracket.u8
+    · simp only [if_pos he] at h ⊢
+      split at h
+      · rcases ctx with _ | ⟨arr, _ | ⟨top, rest⟩⟩
+        · simp only [Outcome.ok.injEq] at h
+          subst h
+          simp [phi]
+        · simp only [Outcome.ok.injEq] at h
+          subst h
+          simp [phi, flushCost, stackSize]
+        · simp only [Outcome.ok.injEq] at h
+          subst h
+          simp only [phi, flushCost, stackSize, List.map_cons, List.sum_cons, List.length_append,
+            List.length_cons, List.length_nil]
+          omega
+      · cases h
+    · simp only [if_neg he] at h ⊢
+      rcases ctx with _ | ⟨top, rest⟩
+      · simp only [Outcome.ok.injEq] at h
+        subst h
+        simp [phi]
+      · simp only [Outcome.ok.injEq] at h
+        subst h
+        simp only [phi, flushCost, stackSize, List.map_cons, List.sum_cons, List.length_append,
+          List.length_cons, List.length_nil]
+        omega
+
+/-! ### amortised cost of one token -/
+
+/-- a value token with raw name `nm` and body `b` (it occupies `5 + nm.length + b.length` bytes) -/
+theorem cMachine_value_step (c c' : CState) (tag : UInt8) (nm b : Bytes)
+    (h : cMachine.value c tag nm b = .ok c') :
+    c'.cost + phi c'.st ≤ c.cost + phi c.st + 8 * (5 + nm.length + b.length) := by
+  simp only [cMachine] at h
+  cases hp : c.st.parseValue tag (lossy nm) b with
+  | err e => simp [hp] at h
+  | panic => simp [hp] at h
+  | outOfFuel => simp [hp] at h
+  | ok s' =>
+    simp only [hp, Outcome.ok.injEq] at h
+    subst h
+    simp only []
+    rw [parseValue_eq] at hp
+    cases hdv : decodeValue tag b with
+    | err e => simp [hdv] at hp
+    | panic => simp [hdv] at hp
+    | outOfFuel => simp [hdv] at hp
+    | ok v =>
+      simp only [hdv] at hp
+      have h1 := phi_nameStep c.st (lossy nm)
+      have h2 := phi_valueTail _ _ _ _ hp
+      have h3 := lossy_length_le nm
+      rw [closeCost_eq]
+      rw [lossy_isEmpty] at h1
+      cases hn : nm.isEmpty with
+      | true =>
+        simp only [hn, if_true] at h1 ⊢
+        omega
+      | false =>
+        simp only [hn, Bool.false_eq_true, if_false] at h1 ⊢
+        omega
+
+/-- a delimiter (one byte) -/
+theorem cMachine_delim_step (c c' : CState) (tag : UInt8) (code : Nat)
+    (h : cMachine.delim c tag = .ok (c', code)) :
+    c'.cost + phi c'.st ≤ c.cost + phi c.st + 8 := by
+  simp only [cMachine, PState.parseDelimiter] at h
+  cases hf : DelimiterTag.fromCode tag.toNat with
+  | none => simp [hf] at h
+  | some t =>
+    simp only [hf, Except.ok.injEq, Prod.mk.injEq] at h
+    obtain ⟨h, _⟩ := h
+    subst h
+    have h1 := phi_addLastAttribute c.st
+    simp only [phi, flushCost] at h1 ⊢
+    omega
+
+/-! ### bytes consumed by the flat reader -/
+
+theorem rdU8_flat_length (bs : Bytes) (b : UInt8) (r : Bytes) (h : rdU8 flatRd bs = .ok (b, r)) :
+    bs.length = r.length + 1 := by
+  rw [rdU8_flat_inv bs b r h]; rfl
+
+theorem rdLV_flat_length (bs x r : Bytes) (h : rdLV flatRd bs = .ok (x, r)) :
+    bs.length = r.length + 2 + x.length := by
+  rcases bs with _ | ⟨a, _ | ⟨b, t⟩⟩
+  · simp [rdLV, rdU16, flatRd] at h
+  · simp [rdLV, rdU16, flatRd] at h
+  · simp only [rdLV, rdU16_flat] at h
+    cases hr : flatRd.readExact (unbe16 a b) t with
+    | error k => simp [hr] at h
+    | ok p =>
+      obtain ⟨x', r'⟩ := p
+      simp only [hr, Outcome.ok.injEq, Prod.mk.injEq] at h
+      obtain ⟨rfl, rfl⟩ := h
+      obtain ⟨rfl, _⟩ := flat_read_inv _ _ _ _ hr
+      simp only [List.length_cons, List.length_append]
+      omega
+
+theorem rdHeader_flat_length (bs : Bytes) (hd : Header) (r : Bytes) (h : rdHeader flatRd bs = .ok (hd, r)) :
+    bs.length = r.length + 8 := by
+  obtain ⟨pre, rfl, hex, hpre⟩ := rdHeader_consumes bs hd r h
+  rcases pre with _ | ⟨a, _ | ⟨b, _ | ⟨c, _ | ⟨d, _ | ⟨e', _ | ⟨f, _ | ⟨g, _ | ⟨i, _ | ⟨j, t⟩⟩⟩⟩⟩⟩⟩⟩⟩
+  case cons.cons.cons.cons.cons.cons.cons.cons.nil => simp only [List.length_append, List.length_cons, List.length_nil]; omega
+  case cons.cons.cons.cons.cons.cons.cons.cons.cons =>
+    have := hpre .other 8 (by simp)
+    simp [rdHeader, rdU16, rdU32, cutRd] at this
+  all_goals
+    have := hex .other []
+    simp [rdHeader, rdU16, rdU32, cutRd] at this
+
+/-! ### the loop -/
+
+/-- cost plus potential grows by at most 8 per byte consumed -/
+theorem driveLoop_cost (cfg : LoopCfg) (fuel : Nat) :
+    ∀ (bs : Bytes) (c c' : CState) (rest : Bytes), driveLoop flatRd cfg cMachine fuel bs c = .ok (c', rest) →
+      c'.cost + phi c'.st + 8 * rest.length ≤ c.cost + phi c.st + 8 * bs.length := by
+  induction fuel with
+  | zero => intro bs c c' rest h; simp [driveLoop] at h
+  | succ f ih =>
+    intro bs c c' rest h
+    simp only [driveLoop] at h
+    cases h0 : rdU8 flatRd bs with
+    | err e => simp [h0] at h
+    | panic => simp [h0] at h
+    | outOfFuel => simp [h0] at h
+    | ok p =>
+      obtain ⟨tag, r1⟩ := p
+      have hl0 := rdU8_flat_length _ _ _ h0
+      simp only [h0] at h
+      by_cases hd : cfg.delimLo ≤ tag.toNat ∧ tag.toNat ≤ cfg.delimHi
+      · simp only [if_pos hd] at h
+        cases hdl : cMachine.delim c tag with
+        | error e => simp [hdl] at h
+        | ok q =>
+          obtain ⟨c1, code⟩ := q
+          have hs := cMachine_delim_step _ _ _ _ hdl
+          simp only [hdl] at h
+          by_cases hc : code = cfg.endTag
+          · simp only [if_pos hc, Outcome.ok.injEq, Prod.mk.injEq] at h
+            obtain ⟨rfl, rfl⟩ := h
+            omega
+          · simp only [if_neg hc] at h
+            have := ih _ _ _ _ h
+            omega
+      · simp only [if_neg hd] at h
+        by_cases hv : cfg.valueLo ≤ tag.toNat ∧ tag.toNat ≤ cfg.valueHi
+        · simp only [if_pos hv] at h
+          cases h1 : rdLV flatRd r1 with
+          | err e => simp [h1] at h
+          | panic => simp [h1] at h
+          | outOfFuel => simp [h1] at h
+          | ok q =>
+            obtain ⟨name, r2⟩ := q
+            simp only [h1] at h
+            cases h2 : rdLV flatRd r2 with
+            | err e => simp [h2] at h
+            | panic => simp [h2] at h
+            | outOfFuel => simp [h2] at h
+            | ok q' =>
+              obtain ⟨body, r3⟩ := q'
+              simp only [h2] at h
+              cases h3 : cMachine.value c tag name body with
+              | err e => simp [h3] at h
+              | panic => simp [h3] at h
+              | outOfFuel => simp [h3] at h
+              | ok c1 =>
+                simp only [h3] at h
+                have hl1 := rdLV_flat_length _ _ _ h1
+                have hl2 := rdLV_flat_length _ _ _ h2
+                have hs := cMachine_value_step _ _ _ _ _ h3
+                have := ih _ _ _ _ h
+                omega
+        · simp only [if_neg hv] at h
+          cases h
 
 /-- the work is bounded by a constant multiple of the bytes consumed -/
 theorem parseCost_linear (bs : Bytes) (r : Header × List Group) (cost : Nat) (rest : Bytes)
     (h : parseCost bs = .ok ((r, cost), rest)) : cost ≤ 8 * (bs.length - rest.length) + 8 := by
-  sorry
+  unfold parseCost at h
+  cases hh : rdHeader flatRd bs with
+  | err e => simp [hh] at h
+  | panic => simp [hh] at h
+  | outOfFuel => simp [hh] at h
+  | ok p =>
+    obtain ⟨hd, r1⟩ := p
+    simp only [hh] at h
+    cases hl : driveLoop flatRd syncLoop cMachine (bs.length + 1) r1 ⟨PState.init, 8⟩ with
+    | err e => simp [hl] at h
+    | panic => simp [hl] at h
+    | outOfFuel => simp [hl] at h
+    | ok q =>
+      obtain ⟨c, r2⟩ := q
+      simp only [hl, Outcome.ok.injEq, Prod.mk.injEq] at h
+      obtain ⟨⟨_, rfl⟩, rfl⟩ := h
+      have h1 := rdHeader_flat_length _ _ _ hh
+      have h2 := driveLoop_cost _ _ _ _ _ _ hl
+      simp only [phi_init] at h2
+      omega
 
 end Ipp
